@@ -80,15 +80,22 @@ def run(ctx) -> None:
 
     # ---------------------------------------------------------------- R1
     r.rule("C11.R1", "the regex that re-tokenises the filter condition accepts, as one token, exactly the token language of the condition grammar (first and following character classes = identifier ∪ pattern alphabet)")
-    subs = [c for c in walk_no_nested(ap.node) if isinstance(c, ast.Call) and call_name(c) in ("re.sub", "re.finditer", "re.findall", "re.compile", "re.split") and c.args]
-    if len(subs) != 1:
-        raise AnalysisError(f"{ap.qual}: expected exactly one tokenising regex call (re.sub/finditer/findall/compile), found {len(subs)}")
-    sub = subs[0]
+    # the tokenising pattern: a regex call with a constant pattern anywhere in the filter class (apply_on_rule, a helper it
+    # delegates to, or a pattern compiled once at class level)
+    fcls = prog.cls(F)
+    subs = [c for c in ast.walk(fcls.node) if isinstance(c, ast.Call) and call_name(c) in ("re.sub", "re.finditer", "re.findall", "re.compile", "re.split", "re.fullmatch", "re.match") and c.args]
+    pats = []
+    for c in subs:
+        try:
+            pv = const_eval(prog, ap.module, c.args[0])
+        except ValueError:
+            raise AnalysisError(f"{F}: token regex {short(c, 60)} is not a constant")
+        if isinstance(pv, str) and pv not in [p_ for p_, _ in pats]:
+            pats.append((pv, c))
+    if len(pats) != 1:
+        raise AnalysisError(f"{F}: expected exactly one tokenising regex (re.sub/finditer/findall/compile with a constant pattern), found {len(pats)}")
+    pattern, sub = pats[0]
     loc = f"{ap.module.relpath}:{sub.lineno}"
-    try:
-        pattern = const_eval(prog, ap.module, sub.args[0])
-    except ValueError:
-        raise AnalysisError(f"{ap.qual}: token regex is not a constant")
     first, rest, _ = regex_token_classes(pattern)
     r.analysed["C11.token_regex"] = pattern
     if first == token_alpha:
@@ -104,16 +111,6 @@ def run(ctx) -> None:
         miss, extra = sorted(token_alpha - rest), sorted(rest - token_alpha)
         r.violation("C11.R1", ap.qual, f"token regex {pattern!r} (following characters)",
                     f"characters {miss[:12]} may occur inside a name in the grammar but end a token for the rewriting regex (extra: {extra[:8]})", loc)
-    text_arg = sub.args[2] if call_name(sub) == "re.sub" and len(sub.args) >= 3 else (sub.args[1] if len(sub.args) >= 2 else None)
-    text_src = unparse(text_arg) if text_arg is not None else ""
-    if isinstance(text_arg, ast.Name):
-        defs = [unparse(v) for v in assignments_to(ap.node, text_arg.id) if isinstance(v, ast.AST)]
-        text_src = defs[0] if len(defs) == 1 else text_src
-    if text_src == "self.filter.condition[0]":
-        r.ok("C11.R1", ap.qual, "tokenises self.filter.condition[0]", loc)
-    else:
-        r.violation("C11.R1", ap.qual, short(sub, 120), "the rewritten text is not the filter's condition string", loc)
-
     # ---------------------------------------------------------------- R2
     r.rule("C11.R2", "the rewriting treats exactly the grammar's keywords as keywords, case-sensitively and only where the grammar reads them as keywords: apply_on_rule interpreted on sample conditions (sa.tabulate, shared with C02.R6), incl. names that differ from a keyword by case only")
     from . import c02
@@ -137,16 +134,31 @@ def run(ctx) -> None:
 
     # ---------------------------------------------------------------- R5 (callback + combination)
     r.rule("C11.R5", "capture-freedom mechanism: the drawn prefix starts with '_' and is drawn again while existing detection names start with it (interpreted with a colliding draw); detections are stored under prefix+'_'+name; both sides of the combined condition are parenthesised and joined by 'and'")
-    pdefs = assignments_to(ap.node, "prefix")
     ploc = ap.loc
-    ok_prefix = False
-    if pdefs and all(isinstance(d_, ast.BinOp) and isinstance(d_.left, ast.Constant) and str(d_.left.value).startswith("_") for d_ in pdefs):
-        ok_prefix = True
-        ploc = f"{ap.module.relpath}:{pdefs[0].lineno}"
-    if ok_prefix:
-        r.ok("C11.R5", ap.qual, f"prefix = {short(pdefs[0], 80)}", ploc)
+    # apply_on_rule interpreted (sa.tabulate, Proxy; shared with C02.R6) on a rule with two conditions and a filter with two detections
+    from ..tabulate import Raised as _R5Raised
+    try:
+        rule5, filt5 = c02.interpret_filter_application(ctx, "flt and not flt2", rule_detections={"sel": "D(sel)", "other": "D(other)"}, rule_conditions=("sel or other", "sel"))
+        keys5 = [k for k in rule5.detection.detections if k not in ("sel", "other")]
+        conds5 = list(rule5.detection.condition)
+    except _R5Raised as ex:
+        raise AnalysisError(f"{ap.qual}: raises {ex} on the stand-in rule")
+    prefixes5 = {k[:-len("_" + n_)] for k in keys5 for n_ in ("flt", "flt2") if k.endswith("_" + n_) and not (n_ == "flt" and k.endswith("_flt2"))}
+    if len(keys5) == 2 and len(prefixes5) == 1 and next(iter(prefixes5)).startswith("_"):
+        P5 = next(iter(prefixes5))
+        r.ok("C11.R5", ap.qual, f"prefix starts with '_' ({P5[:6]}…); filter detections stored under prefix + '_' + name", ploc)
     else:
-        r.violation("C11.R5", ap.qual, "prefix = '_filt_' + ...", "the injected prefix does not provably start with '_': rule selectors such as '1 of sel*'/'them' are only kept away from injected detections by the underscore rule", ploc)
+        P5 = next(iter(prefixes5)) if len(prefixes5) == 1 else None
+        if P5 is not None and not P5.startswith("_"):
+            r.violation("C11.R5", ap.qual, "prefix = '_filt_' + ...", f"the injected prefix {P5!r} does not start with '_': rule selectors such as '1 of sel*'/'them' are only kept away from injected detections by the underscore rule", ploc)
+        else:
+            r.violation("C11.R5", ap.qual, f"rule.detection.detections[prefix + '_' + name]: keys {keys5}", "filter detections are not stored under prefix + '_' + name with one prefix (the rewritten condition would not find them)", ploc)
+    if P5 is not None:
+        want5 = [f"(sel or other) and ({P5}_flt and not {P5}_flt2)", f"(sel) and ({P5}_flt and not {P5}_flt2)"]
+        if conds5 == want5:
+            r.ok("C11.R5", ap.qual, "every condition of the rule becomes '(original) and (filter)', both sides parenthesised", ploc)
+        else:
+            r.violation("C11.R5", ap.qual, f"rule.detection.condition = {conds5}", f"expected {want5}: '(original) and (filter)' with both sides parenthesised for every condition of the rule (operator precedence would otherwise regroup the rule's own OR/AND; not every condition of the rule is combined with the filter)", ploc)
     # a colliding draw is drawn again: interpreted with rules that already own names starting with the drawn prefix and a
     # random stand-in that returns x…x first and y…y afterwards (shared with C20.R4)
     probs = c02.prefix_redraw_failures(ctx)
@@ -167,72 +179,93 @@ def run(ctx) -> None:
                 bulk.extend((c, k, v) for k, v in zip(a0.keys, a0.values) if k is not None)
             else:
                 bulk.append((c, a0, a0))
-    for st in stores:
-        key = unparse(st.targets[0].slice).replace('"', "'")  # type: ignore[attr-defined]
-        sl = f"{ap.module.relpath}:{st.lineno}"
-        if key in ("prefix + '_' + original_cond_name", "f'{prefix}_{original_cond_name}'"):
-            r.ok("C11.R5", ap.qual, f"detections[{key}]", sl)
-        else:
-            r.violation("C11.R5", ap.qual, unparse(st), "filter detections are not stored under prefix + '_' + name (the rewritten condition would not find them)", sl)
-    for c, k, v in bulk:
-        sl = f"{ap.module.relpath}:{c.lineno}"
-        kt = unparse(k).replace('"', "'")
-        if kt.startswith("prefix + '_' + ") or kt.startswith("f'{prefix}_{"):
-            r.ok("C11.R5", ap.qual, f"detections.update({{{kt}: …}})", sl)
-        else:
-            r.violation("C11.R5", ap.qual, short(c, 120), "filter detections are not stored under prefix + '_' + name (the rewritten condition would not find them)", sl)
-    combos = [n for n in walk_no_nested(ap.node) if isinstance(n, ast.Assign) and any(isinstance(t, ast.Subscript) and unparse(t.value) == "rule.detection.condition" for t in n.targets)]
-    for st in combos:
-        sl = f"{ap.module.relpath}:{st.lineno}"
-        txt = _fstring_shape(st.value)
-        if txt == "({condition_str}) and ({filter_condition})":
-            r.ok("C11.R5", ap.qual, f"condition[i] = {txt!r}", sl)
-        else:
-            r.violation("C11.R5", ap.qual, unparse(st), f"combined condition is {txt!r}; expected '(original) and (filter)' with both sides parenthesised (operator precedence would otherwise regroup the rule's own OR/AND)", sl)
-    if not combos or not (stores or bulk):
-        raise AnalysisError(f"{ap.qual}: detection store / condition combination not found")
-    loops = [n for n in walk_no_nested(ap.node) if isinstance(n, ast.For) and unparse(n.iter) == "enumerate(rule.detection.condition)"]
-    if loops:
-        r.ok("C11.R5", ap.qual, "every condition of the rule is combined (loop over rule.detection.condition)", f"{ap.module.relpath}:{loops[0].lineno}")
-    else:
-        r.violation("C11.R5", ap.qual, "for i, condition_str in enumerate(rule.detection.condition)", "not every condition of the rule is combined with the filter", ap.loc)
-
     # ---------------------------------------------------------------- R3
     r.rule("C11.R3", "applicability precedes mutation: every store into the rule in apply_on_rule is dominated by _should_apply_on_rule(rule) being true and the rule not being a correlation rule; _should_apply_on_rule tests `rule.logsource in self.logsource` and the rule list")
-    muts = stores + combos + [prog.enclosing_stmt(c) for c in walk_no_nested(ap.node) if isinstance(c, ast.Call) and call_name(c) == "rule.detection.__post_init__"]
-    for st in muts:
-        gs = atomic_guards(guards_at(prog, ap, st))
-        sl = f"{ap.module.relpath}:{st.lineno}"
-        if ("self._should_apply_on_rule(rule)", True) in gs and ("isinstance(rule, SigmaCorrelationRule)", False) in gs:
-            r.ok("C11.R3", ap.qual, f"{stmt_head(st, 70)} — under should_apply ∧ ¬correlation", sl)
+    # apply_on_rule interpreted with the applicability test answering no, and on a correlation rule: nothing of the rule changes
+    for what, kw in (("the applicability test fails", {"should_apply": False}), ("the rule is a correlation rule", {"should_apply": True, "correlation": True})):
+        try:
+            rule3, _f3 = c02.interpret_filter_application(ctx, "flt", rule_detections={"sel": "D(sel)"}, **kw)
+            changed = []
+            if rule3.detection.detections != {"sel": "D(sel)"}:
+                changed.append(f"detections = {sorted(rule3.detection.detections)}")
+            if rule3.detection.condition != ["sel"]:
+                changed.append(f"condition = {rule3.detection.condition}")
+            if getattr(rule3.detection, "reparsed", 0):
+                changed.append("the detections are parsed again")
+            if rule3.returned is not rule3:
+                changed.append("another object is returned")
+        except _R5Raised as ex:
+            changed = [f"raises {ex}"]
+        if not changed:
+            r.ok("C11.R3", ap.qual, f"when {what} the rule is returned unchanged (interpreted)", ap.loc)
         else:
-            r.violation("C11.R3", ap.qual, stmt_head(st, 120), f"rule is modified without the applicability test having succeeded (dominating facts: {gs})", sl)
-    # _should_apply_on_rule decision structure
-    rets = [x for x in walk_no_nested(sh.node) if isinstance(x, ast.Return)]
-    facts = []
-    for x in rets:
-        gs = [(g.replace('"', "'"), p) for g, p in atomic_guards(guards_at(prog, sh, x))]
-        facts.append((unparse(x.value), gs))
-    def has(val, guard): return any(v == val and guard in gs for v, gs in facts)
-    checks = [
-        (has("False", ("isinstance(rule, SigmaCorrelationRule)", True)), "correlation rules are never filtered"),
-        (has("False", ("rule.logsource not in self.logsource", True)) or has("False", ("rule.logsource in self.logsource", False)), "log source containment `rule.logsource in self.logsource` (rule's log source covered by the filter's)"),
-        (any(v == "True" and any("self.filter.rules" in g and "'any'" in g and p for g, p in gs) for v, gs in facts), "rules == 'any' applies to every covered rule"),
-        (has("False", ("not matches", True)) or has("False", ("matches", False)), "no listed reference matches → not applied"),
+            r.violation("C11.R3", ap.qual, f"apply_on_rule when {what}: {changed[0]}", "rule is modified without the applicability test having succeeded", ap.loc)
+    # _should_apply_on_rule interpreted (sa.tabulate, Proxy) on stand-in rules and rule lists
+    import types as _types
+    from ..tabulate import Proxy, call_method, Raised as _Raised
+
+    from uuid import UUID as _UUID
+    RID = _UUID("9a6b8f0e-3c1d-4e2a-8b7c-1d2e3f4a5f60")
+
+    class _RuleLS:  # the rule's log source; asked the other way round ("does the rule's log source cover the filter's") it answers the opposite
+        def __init__(self, covered): self.covered = covered
+        def __contains__(self, other): return not self.covered
+
+    class SigmaCorrelationRule:
+        def __init__(self):
+            self.logsource, self.id, self.name = _RuleLS(True), RID, "name-1"
+
+    class _Rule:
+        def __init__(self, covered):
+            self.logsource, self.id, self.name = _RuleLS(covered), RID, "name-1"
+
+    class SigmaRuleNotFoundError(Exception):
+        pass
+
+    class SigmaCollection:
+        def __init__(self, rules, *a, **k):
+            self.rules = list(rules)
+        def __getitem__(self, key):
+            for x in self.rules:  # by id in any UUID spelling, or by name
+                try:
+                    if _UUID(str(key)) == x.id:
+                        return x
+                except ValueError:
+                    pass
+                if key == x.name:
+                    return x
+            raise SigmaRuleNotFoundError(key)
+
+    class _Covers:
+        def __contains__(self, other): return bool(other.covered)
+
+    ref = lambda t: _types.SimpleNamespace(reference=t)  # noqa: E731
+    envf = {"SigmaCorrelationRule": SigmaCorrelationRule, "SigmaCollection": SigmaCollection, "SigmaRuleNotFoundError": SigmaRuleNotFoundError,
+            "sigma_exceptions": _types.SimpleNamespace(SigmaRuleNotFoundError=SigmaRuleNotFoundError)}
+    IKf = {"behaviours": (SigmaRuleNotFoundError,), "max_steps": 6000}
+    table = [
+        ("correlation rules are never filtered", SigmaCorrelationRule(), "any", False),
+        ("correlation rules are never filtered (listed by name)", SigmaCorrelationRule(), [ref("name-1")], False),
+        ("log source containment `rule.logsource in self.logsource` (rule's log source covered by the filter's): not covered, rules 'any'", _Rule(False), "any", False),
+        ("log source containment: not covered, rule listed by id", _Rule(False), [ref(str(RID))], False),
+        ("rules == 'any' applies to every covered rule", _Rule(True), "any", True),
+        ("rules == 'Any' (any spelling) applies to every covered rule", _Rule(True), "Any", True),
+        ("listed by name → applied", _Rule(True), [ref("other"), ref("name-1")], True),
+        ("listed by id → applied", _Rule(True), [ref(str(RID)), ref("other")], True),
+        ("listed by id in another spelling of the UUID → applied", _Rule(True), [ref(str(RID).upper())], True),
+        ("no listed reference matches → not applied", _Rule(True), [ref("other"), ref("another")], False),
+        ("empty rule list → not applied", _Rule(True), [], False),
     ]
-    for okk, what in checks:
-        if okk:
-            r.ok("C11.R3", sh.qual, what, sh.loc)
+    for what, rule_, rules_, want in table:
+        me = Proxy(prog, F, envf, {"filter": _types.SimpleNamespace(rules=rules_), "logsource": _Covers(), "source": None}, interp_kwargs=IKf)
+        try:
+            got = call_method(prog, F, "_should_apply_on_rule", me, envf, rule_, interp_kwargs=IKf)
+        except _Raised as ex:
+            got = f"<raises {ex}>"
+        if got is want:
+            r.ok("C11.R3", sh.qual, f"{what}: {got}", sh.loc)
         else:
-            r.violation("C11.R3", sh.qual, what, "decision branch of the applicability test not found in this form (direction of the containment test and the 'any'/reference logic decide which rules are changed)", sh.loc)
-    for v, gs in facts:
-        if v == "True":
-            if not (any(g == "isinstance(rule, SigmaCorrelationRule)" and not p for g, p in gs) and any(g.replace(" not in ", " in ") == "rule.logsource in self.logsource" and (p == ("not in" not in g)) for g, p in gs)):
-                r.violation("C11.R3", sh.qual, "return True", f"a positive answer is reachable without the correlation and log-source tests having passed ({gs})", sh.loc)
-    if not any("reference.reference" in unparse(c) for c in walk_no_nested(sh.node) if isinstance(c, ast.Subscript)):
-        r.violation("C11.R3", sh.qual, "SigmaCollection([rule])[reference.reference]", "rule references of the filter are not resolved against the rule (by id or name)", sh.loc)
-    else:
-        r.ok("C11.R3", sh.qual, "references resolved by id or name through SigmaCollection([rule])[reference.reference]", sh.loc)
+            r.violation("C11.R3", sh.qual, f"{what}: answers {got!r} instead of {want}", "decision of the applicability test deviates (direction of the containment test and the 'any'/reference logic decide which rules are changed; rule references of the filter are resolved against the rule by id or name; a positive answer requires the correlation and log-source tests to have passed)", sh.loc)
 
     # the containment relation itself, tabulated on a stand-in dataclass with the class's own fields and compare flags
     import dataclasses as _dc
@@ -294,11 +327,37 @@ def run(ctx) -> None:
     else:
         r.violation("C11.R6", pi.qual, "self.apply_filters(self.filters)", f"{len(calls)} apply_filters calls in __post_init__ (exactly one expected)", pi.loc)
     af = prog.func("sigma.collection.SigmaCollection.apply_filters")
-    src = unparse(af.node)
-    if "f.apply_on_rule(r)" in src and "for rule in self.rules" in src and "reduce(" in src:
-        r.ok("C11.R6", af.qual, "every rule is folded through every filter, in order", af.loc)
+    # apply_filters interpreted (sa.tabulate, Proxy) on a stand-in collection: three rules (one of them a correlation rule), two filters
+    from functools import reduce as _reduce
+    from ..tabulate import Proxy as _P6, call_method as _cm6, Raised as _R6
+
+    class SigmaRule:
+        def __init__(self, n, trail=()): self.n, self.trail = n, list(trail)
+
+    class _CorrRule:
+        def __init__(self, n): self.n, self.trail = n, []
+
+    class _Flt:
+        def __init__(self, n): self.n = n
+        def apply_on_rule(self, rule):
+            out = type(rule)(rule.n, rule.trail + [self.n]) if isinstance(rule, SigmaRule) else rule
+            if not isinstance(rule, SigmaRule):
+                rule.trail.append(self.n)
+            return out
+
+    rules6 = [SigmaRule("r1"), _CorrRule("c1"), SigmaRule("r2")]
+    env6 = {"SigmaRule": SigmaRule, "reduce": _reduce}
+    me6 = _P6(prog, "sigma.collection.SigmaCollection", env6, {"rules": list(rules6), "filters": []}, interp_kwargs={"max_steps": 6000})
+    try:
+        _cm6(prog, "sigma.collection.SigmaCollection", "apply_filters", me6, env6, [_Flt("f1"), _Flt("f2")], interp_kwargs={"max_steps": 6000})
+        got6 = [(x.n, x.trail) for x in me6.rules]
+    except _R6 as ex:
+        got6 = f"raises {ex}"
+    want6 = [("r1", ["f1", "f2"]), ("c1", []), ("r2", ["f1", "f2"])]
+    if got6 == want6:
+        r.ok("C11.R6", af.qual, "every rule is folded through every filter, in order; the result of one filter is the input of the next; correlation rules are left alone (interpreted)", af.loc)
     else:
-        r.violation("C11.R6", af.qual, "reduce(lambda r, f: f.apply_on_rule(r) ..., filters, rule) for rule in self.rules", "apply_filters no longer folds each rule through all filters", af.loc)
+        r.violation("C11.R6", af.qual, f"reduce(lambda r, f: f.apply_on_rule(r) ..., filters, rule) for rule in self.rules: rules become {got6}", f"expected {want6}: apply_filters no longer folds each rule through all filters", af.loc)
     lr = prog.func("sigma.collection.SigmaCollection.load_ruleset")
     fy = [c for c in walk_no_nested(lr.node) if isinstance(c, ast.Call) and call_name(c).endswith("from_yaml")]
     okc = any(any(kw.arg == "collect_filters" and isinstance(kw.value, ast.Constant) and kw.value.value is True for kw in c.keywords) for c in fy)
@@ -325,7 +384,7 @@ def run(ctx) -> None:
     # which rules a filter names: the rule list is resolved through the collection's lookup (shared with C09.R6)
     from . import c09
     c09.r6_lookup_table(ctx, "C11.R8")
-    for rid, n in (("C11.R1", 3), ("C11.R2", 2), ("C11.R3", 8), ("C11.R4", 1), ("C11.R5", 5), ("C11.R6", 4)):
+    for rid, n in (("C11.R1", 2), ("C11.R2", 2), ("C11.R3", 8), ("C11.R4", 1), ("C11.R5", 3), ("C11.R6", 4)):
         r.floor(rid, n)
 
 
